@@ -21,6 +21,12 @@ func runOne(ctx *hx.Ctx, scn *chainsim.Scenario, count bool) {
 	if !count {
 		cov = nil
 	}
+	mode := mode
+	if scn.Shape == "deep" {
+		// "a transaction or receipt found by id belongs to that head's chain": lookups by id on trees whose heights exceed
+		// 255, where the uvarint block numbers inside the tx-index keys stop sorting numerically
+		mode = chainsim.Mode{Index: true, Lookups: true}
+	}
 	out := chainsim.Execute(scn, mode, ctx.Oracle, cov)
 	if count {
 		depth, forks, _ := chainsim.Stats(scn)
@@ -51,16 +57,20 @@ func main() {
 		}
 	}
 	r := hx.NewRand(ctx.Seed)
-	nTip := ctx.Scale(60, 1500)
+	nTip := ctx.Scale(60, 1000)
 	tipRuleCheck(ctx, r.Fork(7000000), nTip)
 	ctx.Cov.Add("tiprule-trees", nTip)
-	nBushy, nLong := ctx.Scale(700, 8000), ctx.Scale(60, 600)
+	nBushy, nLong := ctx.Scale(700, 6000), ctx.Scale(60, 500)
 	for i := 0; i < nBushy; i++ {
 		runOne(ctx, chainsim.GenBushy(r.Fork(uint64(i)), chainsim.GenOpts{Logs: i%2 == 0}), true)
 	}
 	for i := 0; i < nLong; i++ {
 		rr := r.Fork(uint64(1000000 + i))
 		runOne(ctx, chainsim.GenLong(rr, chainsim.GenOpts{Logs: i%3 == 0}, rr.Range(30, 140)), true)
+	}
+	nDeep := ctx.Scale(3, 30)
+	for i := 0; i < nDeep; i++ {
+		runOne(ctx, chainsim.GenDeep(r.Fork(uint64(2000000+i)), chainsim.GenOpts{}), true)
 	}
 	ctx.Finish(fmt.Sprintf("fork trees on a real chain.Repository over muxdb.NewMem: %d bushy (8-60 blocks, many siblings per height, best set "+
 		"on higher/equal/lower blocks) + %d long (30-140 deep trunk with early/late side branches); after every AddBlock: GetBlockID for "+
